@@ -97,7 +97,10 @@ def _node(draw, dw, depth, min_al=0):
             items.append(draw(_res_item()))
     # one node in forty keeps its first resource beyond 2**53 (address arithmetic must stay exact)
     hb = draw(st.sampled_from([0] * 39 + [(1 << 56) + 2]))
-    return {"dw": dw, "al": al, "items": items, "extra_aw": draw(st.integers(0, 1)), "hb": hb}
+    return {"dw": dw, "al": al, "items": items, "extra_aw": draw(st.integers(0, 1)), "hb": hb,
+            # the same placements made in another order of calls (all addresses explicit): the last
+            # call is then not the highest item
+            "order": draw(st.sampled_from(["asc", "asc", "asc", "desc", "rot"]))}
 
 
 @st.composite
@@ -171,6 +174,7 @@ def _populate(node, children, aw, counter, stats):
     stats = stats or _NoStats()
     mm = MemoryMap(addr_width=aw, data_width=node["dw"], alignment=node["al"])
     b = Built(mm, 1 + max(c.depth for c in children) if children else 0)
+    calls = []
     ci = 0
     for it in node["items"]:
         counter[0] += 1
@@ -191,6 +195,7 @@ def _populate(node, children, aw, counter, stats):
                 kw["addr"] = align_up(max(mm.align_to(0), node["hb"]) + k, max(node["al"], 3))
             s, e = mm.add_resource(r, name=name, size=size, **kw)
             b.local.append((r, (name,), s, e, node["dw"]))
+            calls.append(("res", r, name, size, s))
             _early(mm, b, r)
         else:
             _, cnode, kind, named, mode, k = it
@@ -208,6 +213,7 @@ def _populate(node, children, aw, counter, stats):
                 span = (1 << c.mm.addr_width) // exp_ratio
                 kw["addr"] = align_up(mm.align_to(0), (span - 1).bit_length()) + k * span
             base, end, ratio = mm.add_window(c.mm, name=name, **kw)
+            calls.append(("win", c.mm, name, {k_: v_ for k_, v_ in kw.items() if k_ == "sparse"}, base))
             if ratio != exp_ratio:
                 raise Violation("C03/window-ratio", f"add_window returned ratio {ratio}, expected {exp_ratio}")
             stats.label(kind if kind != "same" else "ratio1")
@@ -221,6 +227,22 @@ def _populate(node, children, aw, counter, stats):
                     stats.label("nonzero_base_and_offset")
                     if ratio > 1:
                         stats.label("dense_nonzero_offset")
+    order = node.get("order", "asc")
+    if order != "asc" and len(calls) >= 2:
+        # the same items at the same (now explicit) addresses, added in another order
+        calls = calls[::-1] if order == "desc" else calls[1:] + calls[:1]
+        mm2 = MemoryMap(addr_width=aw, data_width=node["dw"], alignment=node["al"])
+        for c_ in calls:
+            if c_[0] == "res":
+                got = mm2.add_resource(c_[1], name=c_[2], size=c_[3], addr=c_[4])
+                want = [(s_, e_) for r_, _, s_, e_, _ in b.local if r_ is c_[1]][0]
+                if tuple(got) != want:
+                    raise Violation("C03/placement-order-dependent", f"add_resource(addr={c_[4]:#x}, size={c_[3]}) returned {got}, "
+                                    f"the same call made in ascending order returned {want}")
+            else:
+                mm2.add_window(c_[1], name=c_[2], addr=c_[4], **c_[3])
+        b.mm = mm2
+        stats.label("calls_not_in_address_order")
     return b
 
 
